@@ -589,6 +589,22 @@ func domShortKey(r *engine.Run, rule string) {
 					}
 				}
 			}
+			if why == "" {
+				// a key put together piece by piece (append chains, make+copy): non-empty when one
+				// piece is a single byte or the whole key of an existing shared-prefix node
+				if segs, bad := segsOf(v, 0); bad == "" {
+					for _, sg := range segs {
+						if sg.b != nil {
+							why = "a concatenation that contains a single nibble"
+						}
+						if sg.whole != nil {
+							if _, fldName, ok := loadOfField(sg.whole); ok && fldName == "key" {
+								why = "a concatenation that contains an existing node's whole key (non-empty by induction)"
+							}
+						}
+					}
+				}
+			}
 			r.Check(why != "", rule, o.next(fn(f)+"|shortNode key"), r.P.Pos(st.Pos()), why,
 				"a shared-prefix node is built with a key that is not provably non-empty: with an empty key the value gets a second, non-canonical encoding (another root for the same content) and a later update of that key adds its full weight instead of the difference")
 		})
@@ -658,4 +674,473 @@ func freshResolved(r *engine.Run, rule string) {
 	if n < 2 {
 		r.Anchor(rule, fmt.Errorf("unresolved anchor: returns of resolveHashNode"))
 	}
+}
+
+// ---- FRESH-copy: Copy/CopyRoot of a mutable node never hands out the node itself --------
+
+// A root obtained with CopyRoot is the root of a trie of its own
+// (wmpt.New(root, db)) that serves proofs and lookups while the original keeps
+// changing. insert updates value nodes in place (weight, value, dirty),
+// Serialize/CalcHash write hash and dirty, commit clears dirty: a node object
+// that both tries reach is changed under the snapshot (its proofs stop
+// verifying against its root) and is marked clean by the snapshot's proof
+// generation so the original's commit skips it.
+//
+// Rule: for every node type of the package some method or trie operation
+// writes a field of (a mutable type), no return of its Copy or CopyRoot is the
+// receiver itself, and no child slot of the returned copy is filled with a
+// child loaded directly from the receiver.
+func freshCopy(r *engine.Run, rule string) {
+	funcs := funcsOfPkg(r, pkgWMPT)
+	mutable := map[string]bool{}
+	for _, f := range funcs {
+		engine.Instrs(f, func(in ssa.Instruction) {
+			st, ok := in.(*ssa.Store)
+			if !ok {
+				return
+			}
+			fa, ok := st.Addr.(*ssa.FieldAddr)
+			if !ok {
+				if ia, ok2 := st.Addr.(*ssa.IndexAddr); ok2 {
+					fa, ok = ia.X.(*ssa.FieldAddr)
+				}
+				if !ok {
+					return
+				}
+			}
+			if _, fresh := fa.X.(*ssa.Alloc); fresh {
+				return
+			}
+			if p, ok := fa.X.Type().Underlying().(*types.Pointer); ok {
+				if nm := namedOf(p.Elem()); nm != nil {
+					mutable[nm.Obj().Name()] = true
+				}
+			}
+		})
+	}
+	isRecv := func(f *ssa.Function, v ssa.Value) bool {
+		seen := map[ssa.Value]bool{}
+		var walk func(v ssa.Value) bool
+		walk = func(v ssa.Value) bool {
+			if seen[v] {
+				return false
+			}
+			seen[v] = true
+			switch x := v.(type) {
+			case *ssa.Parameter:
+				return len(f.Params) > 0 && x == f.Params[0]
+			case *ssa.MakeInterface:
+				return walk(x.X)
+			case *ssa.ChangeType:
+				return walk(x.X)
+			case *ssa.ChangeInterface:
+				return walk(x.X)
+			case *ssa.Phi:
+				for _, e := range x.Edges {
+					if walk(e) {
+						return true
+					}
+				}
+			}
+			return false
+		}
+		return walk(v)
+	}
+	n := 0
+	for _, f := range funcs {
+		if f.Parent() != nil || f.Signature.Recv() == nil || f.Blocks == nil {
+			continue
+		}
+		if f.Name() != "Copy" && f.Name() != "CopyRoot" {
+			continue
+		}
+		rt := recvNamed(f)
+		if rt == "WeightedMerkleTrie" || rt == "" {
+			continue
+		}
+		r.Touch(f)
+		if !mutable[rt] {
+			r.Note(rule, fn(f), r.P.Pos(f.Pos()), "no field of "+rt+" is ever written after construction: sharing the object is harmless")
+			continue
+		}
+		n++
+		bad, pos := "", r.P.Pos(f.Pos())
+		for _, ret := range engine.Returns(f) {
+			if len(ret.Results) != 1 {
+				continue
+			}
+			if isRecv(f, resultValue(ret, 0)) {
+				bad, pos = "returns the node itself", r.P.Pos(ret.Pos())
+			}
+		}
+		// child slots of the copy
+		engine.Instrs(f, func(in ssa.Instruction) {
+			st, ok := in.(*ssa.Store)
+			if !ok || !isNodeIfaceW(st.Val.Type()) {
+				return
+			}
+			ld, ok := st.Val.(*ssa.UnOp)
+			if !ok || ld.Op != token.MUL {
+				return
+			}
+			base := ld.X
+			if ia, ok := base.(*ssa.IndexAddr); ok {
+				base = ia.X
+			}
+			if fa, ok := base.(*ssa.FieldAddr); ok && len(f.Params) > 0 && fa.X == ssa.Value(f.Params[0]) {
+				bad, pos = "fills a child slot of the copy with the receiver's own child object", r.P.Pos(st.Pos())
+			}
+		})
+		// byte fields of the copy: either the source's slice itself (immutable hashes)
+		// or a new slice filled with the whole of the source's same field
+		engine.Instrs(f, func(in ssa.Instruction) {
+			st, ok := in.(*ssa.Store)
+			if !ok || !isByteSlice(st.Val.Type()) {
+				return
+			}
+			fa, ok := st.Addr.(*ssa.FieldAddr)
+			if !ok {
+				return
+			}
+			if _, fresh := fa.X.(*ssa.Alloc); !fresh || recvNamedType(fa.X.Type()) != rt {
+				return
+			}
+			dst := engine.FieldOf(fa)
+			if dst == nil {
+				return
+			}
+			segs, why := segsOf(st.Val, 0)
+			good := why == "" && len(segs) == 1 && segs[0].whole != nil
+			if good {
+				b, fld, ok := loadOfField(segs[0].whole)
+				good = ok && len(f.Params) > 0 && b == ssa.Value(f.Params[0]) && fld == dst.Name()
+			}
+			if !good {
+				bad, pos = "gives the copy a "+dst.Name()+" that is not the whole "+dst.Name()+" of the source ("+why+" "+fmtSegs(segs)+")", r.P.Pos(st.Pos())
+			}
+		})
+		r.Check(bad == "", rule, fn(f), pos, "the copy is a new object on every return, its child slots hold copies or hash references, its byte fields are the source's",
+			fn(f)+" "+bad+": "+rt+" objects are changed in place (insert updates weight/value/dirty, Serialize and CalcHash write hash and dirty, commit clears dirty), so the snapshot trie built from CopyRoot changes when the original does (its proofs no longer verify against its root) and proof generation on the snapshot marks the shared node clean, which makes the original's commit skip it")
+	}
+	if n < 4 {
+		r.Anchor(rule, fmt.Errorf("unresolved anchor: only %d Copy/CopyRoot methods of mutable node types found", n))
+	}
+}
+
+func isNodeIfaceW(t types.Type) bool { return isNamed(t, pkgWMPT, "Node") }
+
+// ---- FRESH-hashbuf: a node's hash buffer is never rewritten in place -----------------
+
+// Hash() hands out the node's hash slice itself, and the trie keeps such slices
+// without copying: the checkpoint (SaveRoot: oldRoot.hash = root.Hash()), the
+// previous hash a commit schedules for deletion, the hash references built by
+// Copy/CopyRoot and by the collapse, Root(). That is sound only as long as a
+// hash, once computed, is an immutable value: CalcHash installs a NEW slice. A
+// recomputation that writes into the old buffer (h.Sum(s.hash[:0]),
+// copy(s.hash, ...), append(s.hash[:0], ...)) silently rewrites the saved
+// checkpoint hash and the scheduled deletes.
+//
+// Rule: in the weighted trie no value derived from a load of a node's `hash`
+// field is the destination of copy, the base of append, the target of an
+// element store, or - re-sliced - an argument of a call.
+func freshHashBuf(r *engine.Run, rule string) {
+	n := 0
+	for _, f := range funcsOfPkg(r, pkgWMPT) {
+		if len(f.Blocks) == 0 {
+			continue
+		}
+		o := ord{}
+		engine.Instrs(f, func(in ssa.Instruction) {
+			ld, ok := in.(*ssa.UnOp)
+			if !ok || ld.Op != token.MUL || !isByteSlice(ld.Type()) {
+				return
+			}
+			fld := engine.FieldOf(ld.X)
+			if fld == nil || fld.Name() != "hash" {
+				return
+			}
+			n++
+			bad := ""
+			var badAt ssa.Instruction
+			var visit func(v ssa.Value, resliced bool, depth int)
+			visit = func(v ssa.Value, resliced bool, depth int) {
+				if depth > 4 {
+					return
+				}
+				for _, ref := range engine.Referrers(v) {
+					switch x := ref.(type) {
+					case *ssa.Slice:
+						if x.X == v {
+							visit(x, true, depth+1)
+						}
+					case *ssa.IndexAddr:
+						if x.X != v {
+							continue
+						}
+						for _, r2 := range engine.Referrers(x) {
+							if st, ok := r2.(*ssa.Store); ok && st.Addr == ssa.Value(x) {
+								bad, badAt = "an element of the hash is overwritten", st
+							}
+						}
+					case ssa.CallInstruction:
+						cc := x.Common()
+						if b, ok := cc.Value.(*ssa.Builtin); ok {
+							if (b.Name() == "copy" || b.Name() == "append") && len(cc.Args) > 0 && cc.Args[0] == v {
+								bad, badAt = "the hash buffer is the destination of "+b.Name(), x
+							}
+							continue
+						}
+						if !resliced {
+							continue // handing the hash itself to a call is a read (Equal, Put, Delete ...)
+						}
+						for _, a := range cc.Args {
+							if a == v {
+								bad, badAt = "a re-sliced hash buffer is handed to "+engine.CalleeName(x)+" (an output buffer)", x
+							}
+						}
+					}
+				}
+			}
+			visit(ld, false, 0)
+			cons := o.next(fn(f) + "|hash read")
+			if bad == "" {
+				r.OK(rule, cons, r.P.Pos(ld.Pos()), "the loaded hash is only read")
+				return
+			}
+			r.Fail(rule, cons, r.P.Pos(badAt.Pos()), bad+": Hash() hands out this very slice and the checkpoint (SaveRoot), the scheduled deletes of a commit and the hash references of Copy/CopyRoot keep it without copying, so recomputing a hash in place rewrites the saved checkpoint root (Rollback then installs the new root and deletes it; RollbackTrie sees 'same root' and rolls nothing back)")
+		})
+	}
+	if n < 10 {
+		r.Anchor(rule, fmt.Errorf("unresolved anchor: only %d loads of node hash fields found", n))
+	}
+}
+
+// ---- ORDER-errstore: a failed call's node result never reaches the trie ----------------
+
+// Every walker returns (…, Node, error) and returns a nil node together with an
+// error. Storing the node result into a slot of a live node before the error
+// was looked at erases that slot on a failed storage read: the in-memory trie
+// silently loses a subtree while its cached hash and weight still cover it.
+//
+// Rule: in the weighted trie, a store of the node result of a call that also
+// returns an error into a field or slot of an object that is not freshly built
+// in this function is reached only where that error tested nil.
+func orderErrStore(r *engine.Run, rule string) {
+	n := 0
+	for _, f := range funcsOfPkg(r, pkgWMPT) {
+		if len(f.Blocks) == 0 {
+			continue
+		}
+		o := ord{}
+		engine.Instrs(f, func(in ssa.Instruction) {
+			c, ok := in.(*ssa.Call)
+			if !ok {
+				return
+			}
+			tup, ok := c.Type().(*types.Tuple)
+			if !ok {
+				return
+			}
+			ni, ei := -1, -1
+			for i := 0; i < tup.Len(); i++ {
+				if isNodeIfaceW(tup.At(i).Type()) {
+					ni = i
+				}
+				if isErrorType(tup.At(i).Type()) {
+					ei = i
+				}
+			}
+			if ni < 0 || ei < 0 {
+				return
+			}
+			node, errv := extractOf(c, ni), extractOf(c, ei)
+			if node == nil {
+				return
+			}
+			for _, ref := range engine.Referrers(node) {
+				st, ok := ref.(*ssa.Store)
+				if !ok || st.Val != ssa.Value(node) {
+					continue
+				}
+				var base ssa.Value
+				switch a := st.Addr.(type) {
+				case *ssa.FieldAddr:
+					base = a.X
+				case *ssa.IndexAddr:
+					base = a.X
+					if fa, ok := a.X.(*ssa.FieldAddr); ok {
+						base = fa.X
+					}
+				default:
+					continue
+				}
+				// only slots of node objects: the loaders (Deserialize, VerifyBlockProof) replace
+				// the trie's root wholesale, on failure as on success
+				if nm := namedOf(base.Type()); nm == nil || !strings.HasSuffix(nm.Obj().Name(), "Node") {
+					continue
+				}
+				if al, fresh := base.(*ssa.Alloc); fresh && al.Heap {
+					if _, isStruct := al.Type().Underlying().(*types.Pointer).Elem().Underlying().(*types.Struct); isStruct {
+						continue // a node being built here: dropped with the error
+					}
+				}
+				if _, local := base.(*ssa.Alloc); local {
+					if !base.(*ssa.Alloc).Heap {
+						continue
+					}
+				}
+				n++
+				good := false
+				if errv != nil {
+					if facts, ok := engine.FactsOn(f, st.Block()); ok {
+						for _, ft := range facts {
+							if ft.Kind == "eq" && ft.Truth && (ft.A == ssa.Value(errv) && nilConst(ft.B) || ft.B == ssa.Value(errv) && nilConst(ft.A)) {
+								good = true
+							}
+						}
+					}
+					// same block, after an `if err != nil` is impossible; a store in the call's own block precedes any test
+					if st.Block() == c.Block() {
+						good = false
+					}
+				}
+				r.Check(good, rule, o.next(fn(f)+"|node result stored"), r.P.Pos(st.Pos()), "the node result is stored into the live trie only where the call's error tested nil",
+					"the node returned by "+engine.CalleeName(c)+" is stored into a live node before its error is checked: on a failed storage read the call returns nil, the slot is erased, and the trie silently loses that subtree while hash and weight of the nodes above still cover it (a retry then exports or proves a different trie)")
+			}
+		})
+	}
+	if n < 5 {
+		r.Anchor(rule, fmt.Errorf("unresolved anchor: only %d stores of walker results into live nodes found", n))
+	}
+}
+
+
+// ---- AGREE-copyroot: a snapshot keeps node kinds above the collapse level ------------------
+
+// CopyRoot(level, collapseLevel) copies the trie down to the collapse level and
+// replaces what lies below by hash references. Above that level the copy has to
+// be the same trie: same node kinds, children copied by the same method one
+// level deeper. The shallow Copy() turns every child - also an embedded
+// shared-prefix child - into a bare hash reference; used one level early it
+// yields a snapshot with the same root and weight whose exports and later
+// deletes diverge from the full trie.
+//
+// Rule: in CopyRoot of a node kind with children, every return that is not
+// reached under level == collapseLevel is a newly built node of the receiver's
+// own kind whose child slots are filled only from CopyRoot(level+1,
+// collapseLevel) calls.
+func agreeCopyRoot(r *engine.Run, rule string) {
+	n := 0
+	for _, f := range funcsOfPkg(r, pkgWMPT) {
+		if f.Parent() != nil || f.Name() != "CopyRoot" || f.Signature.Recv() == nil || len(f.Blocks) == 0 {
+			continue
+		}
+		rt := recvNamed(f)
+		if rt == "WeightedMerkleTrie" {
+			continue
+		}
+		// node kinds with children: a struct field of Node type or an array of Node
+		hasKids := false
+		if p, ok := f.Signature.Recv().Type().Underlying().(*types.Pointer); ok {
+			if st, ok := p.Elem().Underlying().(*types.Struct); ok {
+				for i := 0; i < st.NumFields(); i++ {
+					t := st.Field(i).Type()
+					if isNodeIfaceW(t) {
+						hasKids = true
+					}
+					if a, ok := t.Underlying().(*types.Array); ok && isNodeIfaceW(a.Elem()) {
+						hasKids = true
+					}
+				}
+			}
+		}
+		if !hasKids {
+			continue
+		}
+		var ints []ssa.Value
+		for _, p := range f.Params[1:] {
+			if b, ok := p.Type().Underlying().(*types.Basic); ok && b.Kind() == types.Int {
+				ints = append(ints, p)
+			}
+		}
+		if len(ints) != 2 {
+			r.Anchor(rule, fmt.Errorf("unresolved anchor: level parameters of %s", fn(f)))
+			continue
+		}
+		lvl, col := ints[0], ints[1]
+		r.Touch(f)
+		o := ord{}
+		for _, ret := range engine.Returns(f) {
+			if len(ret.Results) != 1 {
+				continue
+			}
+			n++
+			cons := o.next(fn(f) + "|return")
+			pos := r.P.Pos(ret.Pos())
+			atCollapse := false
+			if facts, ok := engine.FactsOn(f, ret.Block()); ok {
+				for _, ft := range facts {
+					if ft.Kind == "eq" && ft.Truth && (ft.A == lvl && ft.B == col || ft.A == col && ft.B == lvl) {
+						atCollapse = true
+					}
+				}
+			}
+			if atCollapse {
+				r.OK(rule, cons, pos, "reached only at the collapse level: a reference form is what is asked for")
+				continue
+			}
+			v := resultValue(ret, 0)
+			if mi, ok := v.(*ssa.MakeInterface); ok {
+				v = mi.X
+			}
+			al, ok := v.(*ssa.Alloc)
+			if !ok || recvNamedType(al.Type()) != rt {
+				r.Fail(rule, cons, pos, "above the collapse level CopyRoot returns something other than a newly built "+rt+" (e.g. the shallow Copy(), which turns every child into a bare hash reference): the snapshot has the same root and weight but not the same nodes, so exports taken from it and deletes applied to it diverge from the full trie")
+				continue
+			}
+			bad := ""
+			engine.Instrs(f, func(in ssa.Instruction) {
+				st, ok := in.(*ssa.Store)
+				if !ok || !isNodeIfaceW(st.Val.Type()) {
+					return
+				}
+				var base ssa.Value
+				switch a := st.Addr.(type) {
+				case *ssa.FieldAddr:
+					base = a.X
+				case *ssa.IndexAddr:
+					if fa, ok := a.X.(*ssa.FieldAddr); ok {
+						base = fa.X
+					}
+				}
+				if base != ssa.Value(al) {
+					return
+				}
+				c, ok := st.Val.(*ssa.Call)
+				if !ok || !(c.Call.IsInvoke() && c.Call.Method.Name() == "CopyRoot" || c.Call.StaticCallee() != nil && c.Call.StaticCallee().Name() == "CopyRoot") {
+					bad = "a child slot of the copy is not filled by the child's CopyRoot"
+					return
+				}
+				args := c.Call.Args
+				if !c.Call.IsInvoke() {
+					args = args[1:]
+				}
+				if len(args) != 2 || !succOf(args[0], lvl) || args[1] != col {
+					bad = "a child is copied with other level arguments than (level+1, collapseLevel)"
+				}
+			})
+			r.Check(bad == "", rule, cons, pos, "a new "+rt+" whose children are CopyRoot(level+1, collapseLevel) copies",
+				bad+": the snapshot collapses at another depth than asked for, or keeps other node kinds than the trie it was taken from")
+		}
+	}
+	if n < 4 {
+		r.Anchor(rule, fmt.Errorf("unresolved anchor: only %d returns of CopyRoot methods of node kinds with children", n))
+	}
+}
+
+func recvNamedType(t types.Type) string {
+	if nm := namedOf(t); nm != nil {
+		return nm.Obj().Name()
+	}
+	return ""
 }
